@@ -6,6 +6,11 @@ props = [json.loads(l) for l in open(os.path.join(V, "properties.jsonl"))]
 ids = [p["id"] for p in props]
 
 CLAIMS = {
+ "C12": dict(
+   technique="Lean 4 theorems over a table-driven model of the internal-git profile rewriting, the extracted inventory of internal git call sites (decide over current tables), C-style path unquoting and base-dir/worktree path functions; in-process model-vs-code correspondence; end-to-end metamorphic replay of generated histories under sampled git configurations and invocation contexts with trace validation of the inventory",
+   text="Machine-checked proof that args_with_internal_git_profile keeps the sub-command, adds each profile option exactly once before '--', removes every conflicting option and leaves everything else and everything from '--' on untouched; that every internal git call whose stdout git-ai parses (125-site inventory re-extracted each run) is pinned by a neutralising flag or a coping parser against every listed configuration knob affecting its output kind; that unescape_git_path inverts git's C-style quoting for every path under both core.quotePath settings; that -C composition/base-dir resolution is cwd-independent behind an absolute -C and worktree storage depends only on (git dir, common dir). Configuration independence of notes/blame/stats follows relative to an explicit git-kernel assumption, which is validated each run on the installed git and by metamorphic end-to-end runs (same history under 34 knob settings, knob combinations, root/subdir/-C/linked worktree).",
+   note="Trusted: Lean kernel (propext, Quot.sound, Classical.choice); extractor lexer + reviewed parsed/unparsed list; hand-written git kernel tables (Affects/Neutralises/ParserHandles/classify/gitQuote) — validated on git 2.39.5, not proved; harness/e2e generators and canonicalisation. The pinning theorem is about argv skeletons; concrete instances are checked on traced invocations. Knobs outside the listed set (except log.showRoot, core.abbrev, diff.context, log.*, exercised e2e only) are not covered. 8 defects fixed in /repo (see known_findings.json fixed).",
+   ref="DESIGN.md §8 C12"),
  "C05": dict(
    technique="Lean 4 theorems over hand-written models of the notes-tree path logic (any fan-out layout), the range builders and the WF predicate + in-process model-vs-code correspondence (pure helpers and the real writer/lookup on a scratch git repository) + end-to-end WF oracle on histories built with the real binary",
    text="Machine-checked proof that, from any notes tree with one entry per object at any (mixed) fan-out depth, every sequence of notes_add (git free to re-layout) and notes_add_batch keeps exactly one entry per annotated object, implements last-write-wins and is found by note_blob_oids_for_commits; that ranges built by compress_lines / the post-commit committed bucket from any per-line author function are sorted, pairwise disjoint, within 1..n and human-free; that the rebase range merger yields sorted disjoint ranges and upsert never keeps an absent file; and that a WF note in C17's Serializable domain serialises into the grammar and parses back WF. Models are tied to the Rust code by differential testing on every run; the repository-wide invariant (every note after every operation is WF against its commit) is checked by an independent Python oracle after every operation of commit/amend/rebase/cherry-pick/squash/reset/delete-rename scenarios with delimiter-like file names, seeded depth 0/1/2 trees and git's own re-fan-out, and the Lean WF predicate is cross-checked against that oracle on every real note.",
